@@ -334,7 +334,7 @@ func run(o *common.Opts, srv *procs.Server, sc scenario, st *stats) {
 			dumped.Store(true)
 			dump := srv.Dump()
 			if strings.Contains(dump, "memdb.(*ChanMap).Send") || strings.Contains(dump, "memdb.publish") {
-				report(witness{Kind: "publisher-blocked", Detail: fmt.Sprintf("publisher %d got no reply to a PUBLISH within 45 s; the server's goroutines show the delivery still in progress:\n%s", rc.pub, inproc.TopFrames(dump, 14)), Sig: "publisher-blocked|delivery never returns"})
+				report(witness{Kind: "publisher-blocked", Detail: fmt.Sprintf("publisher %d got no reply to a PUBLISH within 45 s; the server's goroutines show the delivery still in progress:\n%s", rc.pub, goroutineWith(dump, "memdb.(*ChanMap).Send", 10)), Sig: "publisher-blocked|delivery never returns"})
 			} else {
 				report(witness{Kind: "publish-error", Detail: fmt.Sprintf("publisher %d: %s; goroutines:\n%s", rc.pub, rc.err, inproc.TopFrames(dump, 14)), Sig: "publish-error"})
 			}
@@ -559,6 +559,24 @@ func stalledOnSeveralChannels(srv *procs.Server, seed int64, rounds int, st *sta
 				_ = sub.Send(respc.Cmd("SUBSCRIBE", fmt.Sprintf("stall:%d:%d:%d", seed%100000, round, i)))
 				_, _ = sub.RecvTimeout(5 * time.Second)
 			}
+			// the stalled subscriber keeps sending commands (it just never reads): the server's handling of those
+			// must not disturb a delivery that is waiting on the same socket
+			stopSend := make(chan struct{})
+			defer close(stopSend)
+			go func() {
+				for k := 0; ; k++ {
+					select {
+					case <-stopSend:
+						return
+					case <-time.After(150 * time.Millisecond):
+					}
+					if k%2 == 0 {
+						_ = sub.Send(respc.Cmd("SUBSCRIBE", fmt.Sprintf("stall:%d:%d:extra%d", seed%100000, round, k)))
+					} else {
+						_ = sub.Send(respc.Cmd("PING", "still-here"))
+					}
+				}
+			}()
 			var mu sync.Mutex
 			outstanding := map[int]time.Time{}
 			dropped := 0
@@ -610,7 +628,7 @@ func stalledOnSeveralChannels(srv *procs.Server, seed int64, rounds int, st *sta
 									if strings.Contains(dump, "memdb.(*ChanMap).Send") {
 										where = "the delivery is still waiting on the subscriber's socket"
 									}
-									report(witness{Kind: "publisher-blocked", Detail: fmt.Sprintf("a subscriber on %d channels stopped reading; publisher %d got no reply to PUBLISH within 40 s while all other publishers were idle (%s):\n%s", nch, p, where, inproc.TopFrames(dump, 14)), Sig: "publisher-blocked|delivery without a deadline"})
+									report(witness{Kind: "publisher-blocked", Detail: fmt.Sprintf("a subscriber on %d channels stopped reading; publisher %d got no reply to PUBLISH within 40 s while all other publishers were idle (%s):\n%s", nch, p, where, goroutineWith(dump, "memdb.(*ChanMap).Send", 10)), Sig: "publisher-blocked|delivery without a deadline"})
 								})
 							}
 							return
@@ -712,6 +730,17 @@ func seamScenario(o *common.Opts, st *stats) {
 		srvEnd.Close()
 	}
 	st.scenarios++
+}
+
+// goroutineWith returns the frames of the first goroutine of a dump whose stack mentions needle (the whole dump's
+// top frames if there is none).
+func goroutineWith(dump, needle string, n int) string {
+	for _, g := range strings.Split(dump, "\n\n") {
+		if strings.Contains(g, needle) {
+			return inproc.TopFrames(g, n)
+		}
+	}
+	return inproc.TopFrames(dump, n)
 }
 
 // reusedAddress: a subscriber leaves and, before anything is published, another client arrives from the very same
